@@ -1920,11 +1920,22 @@ func builtinMakeSequence(env *LEnv, args *LVal) *LVal {
 		}
 	}
 	list := QExpr(nil)
-	for x := start; lessNumeric(x, stop); x = addNumeric(x, step) {
+	for x := start; lessNumeric(x, stop); {
 		if msg := env.Runtime.CheckAlloc(len(list.Cells) + 1); msg != "" {
 			return env.Errorf("%s", msg)
 		}
 		list.Cells = append(list.Cells, x.Copy())
+		// The step is positive, so the next element must be greater than
+		// this one.  When it is not, the addition lost it: an int sum wrapped
+		// past the maximum (to a negative number, which is again below stop)
+		// or a float step was absorbed by a large x.  Either way there is no
+		// further element below stop; continuing used to append wrapped
+		// values until the allocation limit stopped it.
+		next := addNumeric(x, step)
+		if !lessNumeric(x, next) {
+			break
+		}
+		x = next
 	}
 	return list
 }
